@@ -1,11 +1,12 @@
 import Infretis.Lemmas.RepexC07Chain
 import Infretis.Lemmas.RepexC07AsIs
 import Infretis.Lemmas.RepexC07Eng
+import Infretis.Lemmas.RepexC07JobDraws
 /-!
 # C07 — every job gets its own random stream
 
 Property theorems only.  Helper lemmas:
-`Infretis/Lemmas/RepexC07{Frame,Issue,Distinct,Count,Reissue,Chain,AsIs,Eng}.lean`;
+`Infretis/Lemmas/RepexC07{Frame,Issue,Distinct,Count,Reissue,Chain,AsIs,Eng,JobDraws}.lean`;
 the engine set-up loop of `select_shoot` is modelled in `Infretis/Model/EngSetup.lean`.
 Model: `Infretis/Model/Repex.lean` (read-only here; tied to the real `REPEX_state` by
 `harness/repex_tie.py` / `harness/props/c07.py`).  The model follows /repo commit 147c104: every
@@ -15,10 +16,12 @@ restart file is re-issued under that ordinal (`mkPickedAt`), without advancing t
 **What a stream is here.**  A random stream is identified by the value
 `Stream = (entropy, key)` mirroring numpy's `SeedSequence(entropy, spawn_key)`.  The numpy fact
 "different `(entropy, spawn_key)` ⇒ statistically independent streams, equal ⇒ identical streams" is
-NOT modelled: all statements below are about stream *identity* as a `Stream` value.  The draws made
-in-process on these streams by the moves and engines (shooting point, length bound, velocities,
-integrator seeds) are covered by the engine-side packages (C09 / C16: every logged draw names the
-job's stream) and by the tie's per-engine checks; this file decides the scheduler side.
+NOT modelled: all statements below are about stream *identity* as a `Stream` value.  Sections 1–6
+decide the scheduler side (which streams a job is handed); section 7 decides the in-process side: the
+draws the moves and engines make (shooting point, length bound, segment pick, swap acceptance,
+velocities, integrator seeds, thermostat noise) are composed from the move / velocity models of
+C09 / C11 / C16 into one trace per job (`Model/JobDraws.lean`, lemmas `Lemmas/RepexC07JobDraws.lean`)
+and every request of that trace is proved to be on a stream of the job's own ordinal.
 
 **The issue log.**  `sysStepJ` is `sysStep` with a ghost output (the job an event issued and the draw
 requests of its `pick()`); `sysStepJ_sys` proves it is `sysStep` on the state.  `ghost y0 evs` = one
@@ -752,5 +755,348 @@ example :
         { t := 0, e := 0 } { t := 2, e := 2 }).map (fun r => (showPicked r.1, showPicked r.2))
       = some ([(-1, ⟨1, [2, 0]⟩, ⟨1, [2, 0, 0]⟩)], [(1, ⟨1, [3, 0]⟩, ⟨1, [3, 0, 0]⟩)]) := by
   decide +kernel
+
+/-! ## 7. Every random number a job draws in-process comes from that job's streams
+
+`JobDraws.runJob` (Model/JobDraws.lean) composes the models of `run_md → select_shoot → shoot / wire_fencing /
+retis_swap_zero / quantis_swap_zero → engine.modify_velocities / engine.propagate` on the picked entries the
+scheduler model hands out: the set-up loop of `select_shoot` (`assignEngineStreams`), the move models of C09/C11
+(`Moves.shoot`, `Moves.wireFencing`, `ZeroSwap.retisSwapZero`, `ZeroSwap.quantisSwapZero`) on arbitrary scripted
+outcomes, the velocity request of C16's model (`Vel.modifyVelocities`) and, per engine class, the draws of one
+`modify_velocities` / `_propagate_from` call (LAMMPS / TurtleMD integrator seeds, ASE Langevin noise).  It returns
+the job's TRACE: every random-number request in call order, resolved to the generator object the code reaches
+(`picked[ens]["ens"]["rgen"]`, `engines[key][0].rgen` as the set-up left it).  The statements below are about
+that function — the one `drv_c07` runs for the tie (`jobdraws`). -/
+
+open Infretis.JobDraws
+
+/-- **`job_draws_on_job_streams`** (FULL).  For every job of every chain (any restarts, fresh or re-issued, one
+    ensemble or a zero swap), every engine class per engine type, ANY prior contents of the worker's engine
+    table and every scripted outcome of the move: each request of the job's trace is made
+    (a) on the move stream `(seed, [ord, j])` of an entry `j` of THIS job — and is then an `integers` or a
+        `random` (shooting point, length bound, segment pick, swap acceptance), or
+    (b) on the engine stream `(seed, [ord, j, 0])` of an entry `j` of THIS job (velocity draws, integrator
+        seeds, thermostat noise), or
+    (c) is GROMACS's own velocity generation (outside the property by its words);
+    never on numpy's global state, never on the scheduler's stream. -/
+theorem job_draws_on_job_streams (seed : Nat) (y : Sys) (log : List Entry) (h : ChainAny seed y log)
+    (e : Entry) (he : e ∈ log) (v : Moves.Variant) (kinds : List EngKind) (tbl : EngTbl) (mv : MoveIn)
+    (out : JobOut) (hr : runJob v kinds tbl e.job.picked mv = .ok out) :
+    ∀ d ∈ out.trace,
+      ((∃ j, j < e.job.picked.length ∧ d.src = .stream { entropy := seed, key := [e.ord, j] } ∧
+          (d.what = .random ∨ ∃ lo hi, d.what = .integers lo hi)) ∨
+       (∃ j, j < e.job.picked.length ∧ d.src = .stream { entropy := seed, key := [e.ord, j, 0] }) ∨
+       (d.src = .external ∧ d.what = .genvel)) ∧
+      d.src ≠ .numpyGlobal ∧ (∀ s : St, d.src ≠ .stream (mainStream s)) := by
+  intro d hd
+  have hst := h.inv.tagged e he
+  have key : (∃ j, j < e.job.picked.length ∧ d.src = .stream { entropy := seed, key := [e.ord, j] } ∧
+          (d.what = .random ∨ ∃ lo hi, d.what = .integers lo hi)) ∨
+       (∃ j, j < e.job.picked.length ∧ d.src = .stream { entropy := seed, key := [e.ord, j, 0] }) ∨
+       (d.src = .external ∧ d.what = .genvel) := by
+    rcases runJob_src hr d hd with ⟨p, hp, hsrc, hpl⟩ | ⟨q, hq, hsrc⟩ | hg
+    · obtain ⟨j, hj⟩ := List.mem_iff_getElem?.mp hp
+      refine Or.inl ⟨j, getElem?_lt_of_some _ _ _ hj, ?_, hpl⟩
+      rw [hsrc, (hst j p hj).1]; rfl
+    · obtain ⟨j, hj⟩ := List.mem_iff_getElem?.mp hq
+      refine Or.inr (Or.inl ⟨j, getElem?_lt_of_some _ _ _ hj, ?_⟩)
+      rw [hsrc, (hst j q hj).2]; rfl
+    · exact Or.inr (Or.inr hg)
+  refine ⟨key, ?_, ?_⟩
+  · rcases key with ⟨_, _, h1, _⟩ | ⟨_, _, h1⟩ | ⟨h1, _⟩ <;> rw [h1] <;> intro hc <;> cases hc
+  · intro s
+    rcases key with ⟨_, _, h1, _⟩ | ⟨_, _, h1⟩ | ⟨h1, _⟩ <;> rw [h1] <;> intro hc <;>
+      simp [mainStream] at hc
+
+/-- job 1 of the example history (`[1+]`, ordinal 1, engine object (0, 1)) -/
+def exJob1 : List Picked := ((ghost exSys exEvs).map (·.job.picked)).getD 1 []
+
+/-- scripted outcomes of a shooting move from a 5-frame path: index 2, ξ = 1/2, both directions end left -/
+def exShootIn : Moves.ShootIn :=
+  { old := [-1, 1, 2, 1, -1], oldTimeOrigin := 0, genLd := false, l := 0, m := 1, r := 3, maxlength := 20,
+    allowMax := false, sc := { hasL := true, hasR := false }, scEns := none, idx := 2, xi := 1/2, kick := 2,
+    back := [1, -1], forw := [1, -1] }
+
+theorem ex_chainAny : ChainAny 7 (okOr exSys (run exSys exEvs)) (ghost exSys exEvs) := by
+  have := ChainAny.run (evs := exEvs) (y' := okOr exSys (run exSys exEvs)) (freshStart_chainAny ex_fresh)
+    (by decide +kernel)
+  simpa using this
+
+/-- non-vacuity: an accepted shooting move on an ASE/Langevin engine object that still holds the generator of
+    an earlier job 99: shooting point and ξ on `(7, [1, 0])`, velocities and the noise of both propagations on
+    `(7, [1, 0, 0])`, nothing on `(7, [99, 0, 0])` -/
+example : (∃ e ∈ ghost exSys exEvs, e.ord = 1 ∧ e.job.picked = exJob1) ∧
+    (runJob .repaired [.ase true] [((0, 1), ⟨7, [99, 0, 0]⟩)] exJob1 (.sh exShootIn)).toOption.map
+        (fun o => (o.status, o.trace))
+      = some ("ACC", [⟨.stream ⟨7, [1, 0]⟩, .integers 1 4⟩, ⟨.stream ⟨7, [1, 0, 0]⟩, .standardNormal⟩,
+                      ⟨.stream ⟨7, [1, 0]⟩, .random⟩, ⟨.stream ⟨7, [1, 0, 0]⟩, .noise⟩,
+                      ⟨.stream ⟨7, [1, 0, 0]⟩, .noise⟩]) := by
+  refine ⟨⟨(ghost exSys exEvs)[1]'(by decide +kernel), List.getElem_mem _, by decide +kernel, by decide +kernel⟩,
+    by decide +kernel⟩
+
+/-- **`job_never_lacks_generator`** (FULL).  After the set-up loop of `select_shoot` no job raises
+    "Did not find random generator!!" / "Missing random generator!" — for every picked list, every engine
+    table, every engine class, every move.  (Without the set-up the same engine call does: example below.) -/
+theorem job_never_lacks_generator (v : Moves.Variant) (kinds : List EngKind) (tbl : EngTbl)
+    (picked : List Picked) (mv : MoveIn) : runJob v kinds tbl picked mv ≠ .error .noRgen :=
+  runJob_ne_noRgen v kinds tbl picked mv
+
+/-- the guard is not vacuous: on an engine object that was never given a generator LAMMPS / TurtleMD / CP2K raise,
+    ASE silently falls back to numpy's global state -/
+example : engDraws .lammps (.propagate false) none = .error .noRgen ∧
+    engDraws .turtlemd (.propagate true) none = .error .noRgen ∧
+    engDraws .cp2k .modvel none = .error .noRgen ∧
+    engDraws (.ase true) .modvel none = .ok [⟨.numpyGlobal, .standardNormal⟩] ∧
+    engDraws (.ase true) (.propagate false) none = .ok [⟨.numpyGlobal, .noise⟩] ∧
+    engDraws (.gromacs false) .modvel none = .ok [⟨.external, .genvel⟩] := by decide +kernel
+
+/-- **`job_draws_disjoint_across_jobs`** (FULL).  Two jobs of a chain with different ordinals (two distinct
+    jobs — concurrent or successive, before or after any number of restarts) never make a request on the same
+    stream, whatever moves they run on whatever engine classes. -/
+theorem job_draws_disjoint_across_jobs (seed : Nat) (y : Sys) (log : List Entry) (h : ChainAny seed y log)
+    (e1 e2 : Entry) (h1 : e1 ∈ log) (h2 : e2 ∈ log) (hne : e1.ord ≠ e2.ord)
+    (v1 v2 : Moves.Variant) (kinds1 kinds2 : List EngKind) (tbl1 tbl2 : EngTbl) (mv1 mv2 : MoveIn)
+    (out1 out2 : JobOut) (hr1 : runJob v1 kinds1 tbl1 e1.job.picked mv1 = .ok out1)
+    (hr2 : runJob v2 kinds2 tbl2 e2.job.picked mv2 = .ok out2) :
+    ∀ d1 ∈ out1.trace, ∀ d2 ∈ out2.trace, ∀ s : Stream, d1.src = .stream s → d2.src ≠ .stream s := by
+  intro d1 hd1 d2 hd2 s hs1 hs2
+  have k1 := (job_draws_on_job_streams seed y log h e1 h1 v1 kinds1 tbl1 mv1 out1 hr1 d1 hd1).1
+  have k2 := (job_draws_on_job_streams seed y log h e2 h2 v2 kinds2 tbl2 mv2 out2 hr2 d2 hd2).1
+  rcases k1 with ⟨_, _, a, _⟩ | ⟨_, _, a⟩ | ⟨a, _⟩ <;> rcases k2 with ⟨_, _, b, _⟩ | ⟨_, _, b⟩ | ⟨b, _⟩ <;>
+    (rw [hs1] at a; rw [hs2] at b
+     first
+       | (simp at a; done)
+       | (simp at b; done)
+       | (have hab := a.symm.trans b; simp at hab <;> exact hne hab.1))
+
+/-- **`job_trace_ignores_stale_generators`** (FULL).  What a job draws and on which streams does not depend on
+    what the engine objects of the worker held before it (generators of earlier jobs, or nothing): same
+    acceptance, status, events and trace, or the same error. -/
+theorem job_trace_ignores_stale_generators (v : Moves.Variant) (kinds : List EngKind) (tbl1 tbl2 : EngTbl)
+    (picked : List Picked) (mv : MoveIn) :
+    (match runJob v kinds tbl1 picked mv, runJob v kinds tbl2 picked mv with
+     | .ok o1, .ok o2 => o1.accept = o2.accept ∧ o1.status = o2.status ∧ o1.evs = o2.evs ∧ o1.trace = o2.trace
+     | .error e1, .error e2 => e1 = e2
+     | _, _ => False) :=
+  runJob_tbl_indep v kinds tbl1 tbl2 picked mv
+
+example : (runJob .repaired [.ase true] [((0, 1), ⟨7, [99, 0, 0]⟩)] exJob1 (.sh exShootIn)).toOption.map (·.trace)
+    = (runJob .repaired [.ase true] [] exJob1 (.sh exShootIn)).toOption.map (·.trace) := by decide +kernel
+
+/-- **`worker_process_draws_on_job_streams`** (FULL).  Any sequence of jobs of a chain executed one after the other
+    in ONE worker process (`runSeq`: the engine objects live on, job `i + 1` finds in them the generators job `i`
+    left): every request of the `i`-th job is on a stream of the `i`-th job's own ordinal (or gmx's own velocity
+    generation) — never on a generator an earlier job left in an engine object. -/
+theorem worker_process_draws_on_job_streams (seed : Nat) (y : Sys) (log : List Entry) (h : ChainAny seed y log)
+    (v : Moves.Variant) (kinds : List EngKind) :
+    ∀ (jobs : List (Entry × MoveIn)) (tbl : EngTbl) (outs : List JobOut), (∀ x ∈ jobs, x.1 ∈ log) →
+      runSeq v kinds tbl (jobs.map (fun x => (x.1.job.picked, x.2))) = .ok outs →
+      outs.length = jobs.length ∧
+      ∀ (i : Nat) (e : Entry) (mv : MoveIn) (o : JobOut), jobs[i]? = some (e, mv) → outs[i]? = some o →
+        ∀ d ∈ o.trace,
+          (∃ j, j < e.job.picked.length ∧ (d.src = .stream { entropy := seed, key := [e.ord, j] } ∨
+              d.src = .stream { entropy := seed, key := [e.ord, j, 0] })) ∨
+          (d.src = .external ∧ d.what = .genvel) := by
+  intro jobs
+  induction jobs with
+  | nil =>
+    intro tbl outs _ hr
+    simp only [List.map_nil, runSeq] at hr
+    injection hr with hr
+    subst hr
+    exact ⟨rfl, fun i e mv o hj => by simp at hj⟩
+  | cons x rest ih =>
+    intro tbl outs hmem hr
+    obtain ⟨e0, mv0⟩ := x
+    simp only [List.map_cons, runSeq] at hr
+    cases h1 : runJob v kinds tbl e0.job.picked mv0 with
+    | error er => rw [h1] at hr; cases hr
+    | ok o0 =>
+      rw [h1] at hr
+      simp only at hr
+      cases h2 : runSeq v kinds o0.tbl (rest.map (fun x => (x.1.job.picked, x.2))) with
+      | error er => rw [h2] at hr; cases hr
+      | ok os =>
+        rw [h2] at hr
+        injection hr with hr
+        subst hr
+        obtain ⟨hl, hrest⟩ := ih o0.tbl os (fun x hx => hmem x (List.mem_cons_of_mem _ hx)) h2
+        refine ⟨by simp [hl], ?_⟩
+        intro i e mv o hj ho d hd
+        cases i with
+        | zero =>
+          simp only [List.getElem?_cons_zero, Option.some.injEq, Prod.mk.injEq] at hj ho
+          obtain ⟨he, hmv⟩ := hj
+          subst he hmv ho
+          have := (job_draws_on_job_streams seed y log h e0 (hmem _ (List.mem_cons_self ..)) v kinds tbl mv0 o0 h1
+            d hd).1
+          rcases this with ⟨j, hj, hs, _⟩ | ⟨j, hj, hs⟩ | hg
+          · exact Or.inl ⟨j, hj, Or.inl hs⟩
+          · exact Or.inl ⟨j, hj, Or.inr hs⟩
+          · exact Or.inr hg
+        | succ i =>
+          simp only [List.getElem?_cons_succ] at hj ho
+          exact hrest i e mv o hj ho d hd
+
+/-- retis zero swap on two different engine objects: LAMMPS for `[0-]` (engine type 1), TurtleMD for `[0+]` -/
+def exFr (op : Int) : ZeroSwap.Frame := { op := op, cfg := ⟨0, 0⟩, vr := false, vpot := none }
+def exGf (op : Int) : ZeroSwap.GenFrame := { op := op, cfg := ⟨0, 0⟩, vpot := none }
+def exE0 : ZeroSwap.Ens :=
+  { i0 := -100, i1 := 0, i2 := 0, maxlen := 10, scL := false, scR := true, wf := false, cap := none }
+def exE1 : ZeroSwap.Ens :=
+  { i0 := 0, i1 := 0, i2 := 10, maxlen := 10, scL := true, scR := false, wf := false, cap := none }
+def exSwapIn : MoveIn :=
+  .retis exE0 exE1 ([1, -1, -2, -1, 1].map exFr) ([-1, 1, 2, 1, -1].map exFr) ⟨none, [-2, -1, 1].map exGf⟩
+    ⟨none, [2, 1, -1].map exGf⟩ (1/2)
+
+/-- **`integrator_seeds_from_engine_streams`** (FULL).  The seeds a job hands to MD programs / stochastic
+    integrators (LAMMPS `infretis_seed`, TurtleMD `seed=`): each is the value of `rgen.integers(0, hi)` at a
+    position `k` of an ENGINE stream `(seed, [ord, j, 0])` of that job — its derivation input `(stream, k)` is a
+    function of the configured seed, the job's ordinal and the course of the move only; within a job no two seeds
+    have the same derivation input; two jobs with different ordinals have no derivation input in common. -/
+theorem integrator_seeds_from_engine_streams (seed : Nat) (y : Sys) (log : List Entry) (h : ChainAny seed y log)
+    (e1 e2 : Entry) (h1 : e1 ∈ log) (h2 : e2 ∈ log)
+    (v1 v2 : Moves.Variant) (kinds1 kinds2 : List EngKind) (tbl1 tbl2 : EngTbl) (mv1 mv2 : MoveIn)
+    (out1 out2 : JobOut) (hr1 : runJob v1 kinds1 tbl1 e1.job.picked mv1 = .ok out1)
+    (hr2 : runJob v2 kinds2 tbl2 e2.job.picked mv2 = .ok out2) :
+    (∀ x ∈ seedInputs out1.trace, ∃ j, j < e1.job.picked.length ∧
+        x.1 = .stream { entropy := seed, key := [e1.ord, j, 0] }) ∧
+    (seedInputs out1.trace).Nodup ∧
+    (e1.ord ≠ e2.ord → ∀ x1 ∈ seedInputs out1.trace, ∀ x2 ∈ seedInputs out2.trace, (x1.1, x1.2.1) ≠ (x2.1, x2.2.1)) := by
+  have hseed : ∀ (e : Entry) (he : e ∈ log) (v : Moves.Variant) (kinds : List EngKind) (tbl : EngTbl)
+      (mv : MoveIn) (out : JobOut), runJob v kinds tbl e.job.picked mv = .ok out →
+      ∀ x ∈ seedInputs out.trace, ∃ j, j < e.job.picked.length ∧
+        x.1 = .stream { entropy := seed, key := [e.ord, j, 0] } := by
+    intro e he v kinds tbl mv out hr x hx
+    obtain ⟨d, hd, hsrc, hw⟩ := seedInputs_mem out.trace x hx
+    obtain ⟨q, hq, hqs⟩ := runJob_seed hr d hd x.2.2 hw
+    obtain ⟨j, hj⟩ := List.mem_iff_getElem?.mp hq
+    refine ⟨j, getElem?_lt_of_some _ _ _ hj, ?_⟩
+    rw [← hsrc, hqs, ((h.inv.tagged e he) j q hj).2]; rfl
+  refine ⟨hseed e1 h1 v1 kinds1 tbl1 mv1 out1 hr1, seedInputs_nodup _, ?_⟩
+  intro hne x1 hx1 x2 hx2 heq
+  obtain ⟨j1, _, a⟩ := hseed e1 h1 v1 kinds1 tbl1 mv1 out1 hr1 x1 hx1
+  obtain ⟨j2, _, b⟩ := hseed e2 h2 v2 kinds2 tbl2 mv2 out2 hr2 x2 hx2
+  simp only [Prod.mk.injEq] at heq
+  obtain ⟨h', _⟩ := heq
+  rw [a, b] at h'
+  simp at h'
+  exact hne h'.1
+
+/-- non-vacuity: the zero swap of job 0 on LAMMPS + TurtleMD hands on two seeds, each the first value of its own
+    ensemble's engine stream -/
+example : (runJob .repaired [.turtlemd, .lammps] [] ex2Job exSwapIn).toOption.map
+      (fun o => (o.status, o.evs.length, seedInputs o.trace))
+    = some ("ACC", 4, [(.stream ⟨7, [0, 0, 0]⟩, 0, 10000000), (.stream ⟨7, [0, 1, 0]⟩, 0, 1000000000)]) := by
+  decide +kernel
+
+/-- **`reissued_job_draws_the_same`** (FULL on `ChainReach`, like `reissue_same_streams`).  Stop a chain at any
+    instant, restart, let the initiation loop re-issue the recorded jobs.  If the `i`-th re-issued job is given the
+    same engine objects as before (same `eng_idx` entry by entry), then on the same scripted outcomes of the move
+    it makes exactly the same requests on exactly the same streams as the job it continues — whatever the engine
+    objects of the old and of the new worker process held: the same job draws the same random numbers. -/
+theorem reissued_job_draws_the_same (seed : Nat) (y : Sys) (log : List Entry) (h : ChainReach seed y log)
+    (workers tsteps : Nat) (occ : List (List Int)) (ensEng : List (List Nat))
+    (weightOf : Nat → List Rat) (s' : St)
+    (hre : restore (persist y.s) y.s.n workers tsteps occ ensEng weightOf = .ok s')
+    (pre : List Repex.Ev) (hlen : pre.length = y.s.locked.length)
+    (hst : ∀ ev ∈ pre, ∃ o d, ev = Repex.Ev.start o d) (y' : Sys)
+    (hr : run { s := s', jobs := [] } pre = .ok y')
+    (i : Nat) (e : Entry) (job : Job) (he : (ghost { s := s', jobs := [] } pre)[i]? = some e)
+    (hj : y.jobs[i]? = some job)
+    (heng : ∀ (j : Nat) (p q : Picked), e.job.picked[j]? = some p → job.picked[j]? = some q → p.engIdx = q.engIdx)
+    (v : Moves.Variant) (kinds : List EngKind) (tbl1 tbl2 : EngTbl) (mv : MoveIn) :
+    e.job.picked = job.picked ∧
+    (match runJob v kinds tbl1 e.job.picked mv, runJob v kinds tbl2 job.picked mv with
+     | .ok o1, .ok o2 => o1.accept = o2.accept ∧ o1.status = o2.status ∧ o1.evs = o2.evs ∧ o1.trace = o2.trace
+     | .error e1, .error e2 => e1 = e2
+     | _, _ => False) := by
+  obtain ⟨_, _, hall⟩ := reissue_same_streams seed y log h workers tsteps occ ensEng weightOf s' hre pre hlen hst y' hr
+  obtain ⟨_, _, hrec, hstreams⟩ := hall i e job he hj
+  have hpicked : e.job.picked = job.picked := by
+    unfold jobRec at hrec
+    simp only [Prod.mk.injEq] at hrec
+    obtain ⟨hens, hpn⟩ := hrec
+    have hl : e.job.picked.length = job.picked.length := by
+      have := congrArg List.length hens
+      simpa using this
+    apply List.ext_getElem? 
+    intro j
+    cases hp : e.job.picked[j]? with
+    | none =>
+      have : job.picked.length ≤ j := by
+        rw [← hl]; exact List.getElem?_eq_none_iff.mp hp
+      exact (List.getElem?_eq_none_iff.mpr this).symm
+    | some p =>
+      have hjl : j < job.picked.length := by rw [← hl]; exact getElem?_lt_of_some _ _ _ hp
+      have hq : job.picked[j]? = some job.picked[j] := List.getElem?_eq_getElem hjl
+      rw [hq]
+      have h1 := congrArg (fun l => l[j]?) hens
+      have h2 := congrArg (fun l => l[j]?) hpn
+      simp only [List.getElem?_map, hp, hq, Option.map_some, Option.some.injEq] at h1 h2
+      obtain ⟨h3, h4⟩ := hstreams j p job.picked[j] hp hq
+      have h5 := heng j p job.picked[j] hp hq
+      congr 1
+      cases p
+      cases hjq : job.picked[j]
+      rw [hjq] at h1 h2 h3 h4 h5
+      simp only at h1 h2 h3 h4 h5
+      subst h1 h2 h3 h4 h5
+      rfl
+  refine ⟨hpicked, ?_⟩
+  rw [hpicked]
+  exact runJob_tbl_indep v kinds tbl1 tbl2 job.picked mv
+
+/-- two successive jobs in one worker process: the zero swap of job 0, then the shooting move of job 1 on an engine
+    object... both of type 0: job 1 finds `(7, [0, 1, 0])` of job 0 in object (0, 0) and its own object (0, 1) empty -/
+example : (runSeq .repaired [.turtlemd, .lammps] [] [(ex2Job, exSwapIn), (exJob1, .sh exShootIn)]).toOption.map
+      (fun os => os.map (fun o => (o.status, o.trace.map (·.src))))
+    = some [("ACC", [.stream ⟨7, [0, 0, 0]⟩, .stream ⟨7, [0, 1, 0]⟩]),
+            ("ACC", [.stream ⟨7, [1, 0]⟩, .stream ⟨7, [1, 0, 0]⟩, .stream ⟨7, [1, 0]⟩, .stream ⟨7, [1, 0, 0]⟩,
+                     .stream ⟨7, [1, 0, 0]⟩])] := by decide +kernel
+
+/-- **`moves_project_onto_move_models`** (FULL).  The traced moves are conservative over the move models of
+    C09 / C11: the requests they make on move streams are exactly the draw lists `Moves.shoot` /
+    `Moves.wireFencing` report (same order), resp. as many `random` as `ZeroSwap.…` counts; whenever
+    `Moves.wireFencing` returns, the trace of the wire-fencing move exists. -/
+theorem moves_project_onto_move_models :
+    (∀ (ens slot : Int) (o : Moves.ShootOut), drawsOf (shootEvs ens slot o) = o.draws.map ofMovesDraw) ∧
+    (∀ (v : Moves.Variant) (i : Moves.WfIn) (ens slot : Int) (o : Moves.WfOut), Moves.wireFencing v i = .ok o →
+      ∃ evs, wfEvs v i ens slot = .ok evs ∧ drawsOf evs = o.draws.map ofMovesDraw) ∧
+    (∀ r : ZeroSwap.Result, drawsOf (retisEvs r) = List.replicate r.draws .random ∧
+      drawsOf (quantisEvs r) = List.replicate r.draws .random) := by
+  refine ⟨shootEvs_draws, fun v i ens slot o ho => ?_, fun r => ?_⟩
+  · obtain ⟨evs, h1, h2, _⟩ := wfEvs_draws v i ens slot o ho
+    exact ⟨evs, h1, h2⟩
+  · have hreq : ∀ l : List ZeroSwap.Req, drawsOf (l.map reqEv) = [] := by
+      intro l
+      induction l with
+      | nil => rfl
+      | cons a t ih =>
+        cases a <;> simp only [List.map_cons, reqEv, drawsOf, List.filterMap_cons] <;> exact ih
+    have hsw : ∀ n, drawsOf (swapDraws n) = List.replicate n .random := by
+      intro n
+      induction n with
+      | zero => rfl
+      | succ n ih =>
+        simp only [swapDraws, List.replicate_succ, drawsOf, List.filterMap_cons]
+        exact congrArg _ ih
+    constructor
+    · unfold retisEvs; rw [drawsOf_append, hreq, hsw]; rfl
+    · unfold quantisEvs; rw [drawsOf_append, drawsOf_append, hreq, hreq, hsw]; simp
+
+/-- **`velocity_request_is_engine_rgen`** (FULL).  For all five engine classes and all numeric inputs the request
+    C16's model of `modify_velocities` issues is tagged `engine.rgen` and has the method `modvelDraws` resolves
+    (`normal`; `standard_normal` for ASE). -/
+theorem velocity_request_is_engine_rgen (k : EngKind) (s : Vel.Setup) (hs : s.engine = k.velEngine)
+    (src : Vel.Frame) (ek : Option Rat) (zm : Option Bool) (sig : List Rat) (z : List (List Rat)) :
+    (Vel.modifyVelocities Vel.codeVariant Vel.codeVariant s src ek zm sig z).request.stream = .engineRgen ∧
+    (Vel.modifyVelocities Vel.codeVariant Vel.codeVariant s src ek zm sig z).request.method = (velRequest k).2 := by
+  obtain ⟨h1, h2, h3⟩ := velRequest_spec k s hs src ek zm sig z
+  exact ⟨h1.trans h3, h2⟩
+
+example : (velRequest .lammps, velRequest (.ase true)) =
+    ((.engineRgen, "normal"), (.engineRgen, "standard_normal")) := by decide +kernel
+
 
 end Infretis.C07
